@@ -10,7 +10,8 @@ SUBST = {
     "t_add e=1 c=2": "merc lat_ts=56 ellps=bessel",
     "t_dbl e=1": "cart ellps=intl",
     "t_add e=2 c=3": "helmert x=10 y=-20 z=30 rx=0.1 ry=-0.2 rz=0.3 s=2 convention=position_vector",
-    "t_oneway e=3": "curvature gauss ellps=GRS80",
+    "t_oneway e=3": "curvature gaussian ellps=GRS80",
+    "t_oneway2 e=3": "curvature prime ellps=GRS80",
     "t_failodd": "tmerc lon_0=9 k_0=0.9996 x_0=500000",
     "noop": "noop",
 }
@@ -84,13 +85,19 @@ def to_behaviours(i, r, ctx="minimal", relational=True, extra_calls=None):
             for d in ("F", "I"):
                 calls2.append({"do": "same", "a": [["h", d]], "b": [["x", d]], "data": GEO})
         out.append({"id": "%dr" % i, "ctx": ctx, "resources": res2, "calls": calls2, "kind": "relational"})
+    if relational and not r["ok"] and r.get("why") == "noninvertible":
+        # `inv` on a step without an inverse: the one-way built-ins must refuse it as well (their gamuts do
+        # not list the flag; silently ignoring the modifier is neither refusal nor exchanged directions)
+        res2 = {k: subst_def(v) for k, v in r["resources"].items()}
+        out.append({"id": "%dr" % i, "ctx": ctx, "resources": res2, "kind": "relational",
+                    "calls": [{"do": "op", "def": subst_def(r["def"]), "as": "h", "ok": False}]})
     return out
 
 
 # ---- C04: the same macro structures with a built-in whose parameter is the context's own global ------
 # The probe's `c` becomes cart's `ellps` (which every context also supplies as a global, ellps=GRS80):
 # invocation arguments, macro parameters and defaults then compete with a real global.
-ELLPS = {1: "GRS80", 2: "intl", 3: "bessel", 4: "clrk66", 5: "WGS84", 6: "airy", 7: "krass", 9: "helmert"}
+ELLPS = {1: "GRS80", 2: "intl", 3: "bessel", 4: "clrk66", 5: "WGS84", 6: "airy", 7: "krass", 8: "fschr60", 9: "helmert"}
 
 
 def subst_ellps(text):
@@ -111,3 +118,58 @@ def ellps_behaviour(i, r, ctx="minimal"):
         for d in ("F", "I"):
             calls.append({"do": "same", "a": [["h", d]], "b": [["x", d]], "data": GEO})
     return {"id": "%de" % i, "ctx": ctx, "resources": res2, "calls": calls, "kind": "ellps"}
+
+
+# ---- reporting: stable, layout-independent signatures; minimal reproductions of every kind first ---------
+def canonical(text):
+    """A definition with layout and arguments taken out: per step the operator / macro name and its modifiers in a
+    fixed order (`inv t_add e=1 c=1 omit_fwd=true` and `t_add e=1 c=1 inv omit_fwd` are the same shape)"""
+    steps = []
+    parts = re.split(r"([|<>])", text)
+    sep = ""
+    for p in parts:
+        if p in ("|", "<", ">"):
+            sep = p
+            continue
+        toks = p.split()
+        if not toks:
+            continue
+        mods = {t.split("=")[0] for t in toks if t in MODS}
+        if sep == "<":
+            mods.add("omit_fwd")
+        if sep == ">":
+            mods.add("omit_inv")
+        core = [t for t in toks if t not in MODS]
+        name = core[0] if core else ""
+        steps.append(" ".join([name] + [m for m in ("inv", "omit_fwd", "omit_inv") if m in mods]))
+    return " | ".join(steps)
+
+
+def family(text):
+    """The family of the first macro invoked in a definition: `m:fd_a_z z=3` -> `m:fd`"""
+    for t in re.split(r"[\s|<>]+", text):
+        if ":" in t and "=" not in t:
+            return t.split("_")[0]
+    return canonical(text)
+
+
+def ordered(mism, sig):
+    """Mismatches in reporting order: per signature the shortest definition, the kinds of failure taking turns
+    (the report shows ten: they should not all be layouts of one case); then everything else"""
+    best = {}
+    for m in mism:
+        k = sig(m)
+        d = m["behaviour"]["calls"][0]["def"]
+        if k not in best or len(d) < len(best[k]["behaviour"]["calls"][0]["def"]):
+            best[k] = m
+    groups = {}
+    for k in sorted(best, key=lambda k: (len(best[k]["behaviour"]["calls"][0]["def"]), k)):
+        m = best[k]
+        groups.setdefault((m["behaviour"].get("kind"), m["fails"][0]["what"]), []).append(m)
+    first = []
+    while any(groups.values()):
+        for g in sorted(groups):
+            if groups[g]:
+                first.append(groups[g].pop(0))
+    chosen = {id(m) for m in first}
+    return first + [m for m in mism if id(m) not in chosen]
